@@ -29,6 +29,9 @@
  *   VF_KIND    ENOSPC|EIO|EINTR   (EINTR: the k-th call fails with EINTR, the next call of the class with EIO)
  *   VF_OUT     path prefix of the output (file for the packers, directory for rdsquashfs)
  *   VF_OUT_FD1 1 when standard output is the tool's output (sqfs2tar, rdsquashfs -c)
+ *   VF_TRACE   (counting runs) path of a call-site trace: one line `<class> <side> <k> <site hash>` per call, where k is
+ *              the call's index within (class, side) and the hash covers the six innermost return addresses — used
+ *              by the runner to stratify large enumerations by call site
  *
  * Side file (rewritten when the fault fires and again at exit):
  *   count <class> <side> <n>      per class and side, calls seen
@@ -74,7 +77,10 @@ static char fired_fn[32];
 static int fired_errno;
 static void *bt[48];
 static int bt_n;
-static const char *report_path, *out_prefix;
+static const char *report_path, *out_prefix, *trace_path;
+#define VF_TRACE_MAX 400000
+static struct { unsigned char cls, side; unsigned k; unsigned long h; } trace[VF_TRACE_MAX];
+static long trace_n;
 static int out_fd1;
 
 static void vf_report(void)
@@ -125,10 +131,27 @@ static void vf_report(void)
 #endif
 }
 
+static void vf_write_trace(void)
+{
+	FILE *f;
+	long i, n = trace_n < VF_TRACE_MAX ? trace_n : VF_TRACE_MAX;
+
+	if (trace_path == NULL)
+		return;
+	armed = 0;                       /* stdio below goes through the wrapped calls in VF_WRAP mode */
+	f = fopen(trace_path, "w");
+	if (f == NULL)
+		return;
+	for (i = 0; i < n; ++i)
+		fprintf(f, "%s %s %u %lx\n", cname[trace[i].cls], trace[i].side == S_OUT ? "out" : "in", trace[i].k, trace[i].h);
+	fclose(f);
+}
+
 static void vf_atexit(void)
 {
 	reached_exit = 1;
 	vf_report();
+	vf_write_trace();
 }
 
 static void vf_init(void)
@@ -140,6 +163,7 @@ static void vf_init(void)
 		return;
 	cfg_done = 1;
 	report_path = getenv("VF_REPORT");
+	trace_path = getenv("VF_TRACE");
 	out_prefix = getenv("VF_OUT");
 	if (out_prefix != NULL && out_prefix[0] == '\0')
 		out_prefix = NULL;
@@ -225,7 +249,26 @@ static int vf_decide(int cls, int side, const char *fn)
 	vf_init();
 	if (!armed)
 		return 0;
-	__atomic_add_fetch(&cnt[cls][side], 1, __ATOMIC_SEQ_CST);
+	{
+		long k = __atomic_add_fetch(&cnt[cls][side], 1, __ATOMIC_SEQ_CST);
+
+		if (trace_path != NULL) {
+			long slot = __atomic_fetch_add(&trace_n, 1, __ATOMIC_SEQ_CST);
+
+			if (slot < VF_TRACE_MAX) {
+				void *fr[8];
+				int i, n = backtrace(fr, 8);
+				unsigned long h = 1469598103934665603UL;
+
+				for (i = 1; i < n && i < 7; ++i)
+					h = (h ^ (unsigned long)fr[i]) * 1099511628211UL;
+				trace[slot].cls = (unsigned char)cls;
+				trace[slot].side = (unsigned char)side;
+				trace[slot].k = (unsigned)k;
+				trace[slot].h = h;
+			}
+		}
+	}
 	if (fired && !pending_eio && side == S_OUT && (cls == C_WRITE || cls == C_TRUNC))
 		__atomic_add_fetch(&post_out_writes, 1, __ATOMIC_SEQ_CST);
 	if (cfg_class < 0 || cfg_k <= 0)
